@@ -45,11 +45,18 @@ def st_name(st):
         return repr(st)
 
 
+NO_REDIRECT = [False]   # set while threads run: redirect_stdout and
+#                         warnings.catch_warnings are process-global
+
+
 @contextlib.contextmanager
 def quiet():
     """Swallow the library's chatter (PeriodicDiskRevolve prints its period,
     Mixed warns about numba); returns the captured text."""
     buf = io.StringIO()
+    if NO_REDIRECT[0]:
+        yield buf
+        return
     with warnings.catch_warnings():
         warnings.simplefilter("ignore")
         with contextlib.redirect_stdout(buf):
